@@ -335,3 +335,31 @@ func KnownHit(f *Failure) {
 		}
 	}
 }
+
+// Perm is a seed-determined permutation of 0..n-1 (enumerating checks pick their quick subset with it).
+func Perm(n int, seed uint64) []int {
+	p := make([]int, n)
+	for i := range p {
+		p[i] = i
+	}
+	x := seed*2862933555777941757 + 3037000493 | 1
+	for i := n - 1; i > 0; i-- {
+		x ^= x << 13
+		x ^= x >> 7
+		x ^= x << 17
+		j := int(x % uint64(i+1))
+		p[i], p[j] = p[j], p[i]
+	}
+	return p
+}
+
+// Scale is the development aid VERIF_SCALE (1 if unset).
+func Scale() float64 {
+	if sc, err := strconv.ParseFloat(os.Getenv("VERIF_SCALE"), 64); err == nil && sc > 0 {
+		return sc
+	}
+	return 1
+}
+
+// Evals adds n evaluated cases that are not recorded one by one with Case.
+func Evals(n int64) { mu.Lock(); evals += n; mu.Unlock() }
